@@ -239,6 +239,7 @@ class SimFS:
         # relative directory prefixes that are mount points of OTHER file systems: rename / replace / link across a
         # device boundary fails with EXDEV as it does between /tmp (tmpfs) and a home directory
         self.devices = tuple(d.strip("/") for d in devices)
+        self.rel_filter = None      # optional canonicaliser of recorded names (e.g. masks parts derived from absolute paths)
         self.counts = {}
         self.write_set = set()      # rel paths mutated (any mutating op) - cleared by callers
         self._saved = None
@@ -259,7 +260,8 @@ class SimFS:
             if s == r:
                 return "."
             if s.startswith(r + "/"):
-                return s[len(r) + 1:]
+                rel = s[len(r) + 1:]
+                return self.rel_filter(rel) if self.rel_filter is not None else rel
         return None
 
     def _device(self, rel):
